@@ -239,6 +239,33 @@ def set_iteration_order(ctx, chk, rule="R14.5"):
             return e.id in names
         return False
 
+    # per-object caches filled lazily by item stores (`self._cache[key] = value` outside __init__): their iteration order is the order in
+    # which the entries happened to be requested - a property of the object's HISTORY, not of its content
+    lazy_dicts = set()
+    for mod_ in (ctx.db.module(q_) for q_ in ("score_analysis.scores", "score_analysis.group_scores")):
+        for c_ in mod_.classes.values():
+            for nm_, f_ in c_.methods.items():
+                if nm_ == "__init__":
+                    continue
+                for x in ast.walk(f_.node):
+                    if isinstance(x, ast.Subscript) and isinstance(x.ctx, ast.Store) and isinstance(x.value, ast.Attribute) and isinstance(x.value.value, ast.Name) \
+                            and x.value.value.id == "self":
+                        lazy_dicts.add(x.value.attr)
+
+    def is_history_iter(e, cls_methods, depth=0):
+        """self.<lazy dict> / .items() / .keys() / .values() of it, directly or through a same-class helper that returns it."""
+        if isinstance(e, ast.Call) and isinstance(e.func, ast.Attribute) and e.func.attr in ("items", "keys", "values") and not e.args:
+            return is_history_iter(e.func.value, cls_methods, depth)
+        if isinstance(e, ast.Attribute) and isinstance(e.value, ast.Name) and e.value.id == "self" and e.attr in lazy_dicts:
+            return True
+        if isinstance(e, ast.Call) and isinstance(e.func, ast.Attribute) and isinstance(e.func.value, ast.Name) and e.func.value.id == "self" and depth < 2:
+            h = cls_methods.get(e.func.attr)
+            if h is not None:
+                return any(isinstance(r, ast.Return) and r.value is not None and is_history_iter(r.value, cls_methods, depth + 1) for r in ast.walk(h.node))
+        if isinstance(e, ast.Call) and isinstance(e.func, ast.Name) and e.func.id in ("list", "tuple", "iter", "enumerate", "reversed") and e.args:
+            return is_history_iter(e.args[0], cls_methods, depth)
+        return False
+
     def draws(fn_node):
         for n in ast.walk(fn_node):
             if isinstance(n, ast.Call):
@@ -274,17 +301,24 @@ def set_iteration_order(ctx, chk, rule="R14.5"):
                     if isinstance(x, ast.Assign) and len(x.targets) == 1 and isinstance(x.targets[0], ast.Name) and is_set_expr(x.value, names):
                         names.add(x.targets[0].id)
                 bad = []
+                hist = []
                 for x in ast.walk(f.node):
                     its = [x.iter] if isinstance(x, (ast.For, ast.comprehension)) else []
                     for it in its:
                         if is_set_expr(it, names):
                             bad.append((getattr(it, "lineno", f.node.lineno), ast.unparse(it)[:70]))
+                        elif is_history_iter(it, c.methods):
+                            hist.append((getattr(it, "lineno", f.node.lineno), ast.unparse(it)[:70]))
                 q = c.qualname + "." + nm
                 for line, src in bad:
                     chk.violation(rule, q, "%s:set-iteration:%s" % (nm, src[:40]), "iterates over the set expression `%s` on a sampling path" % src,
                                   "a deterministic order (self.groups, sorted(...)): the iteration order of a set of strings changes with the interpreter's hash seed, "
                                   "so a fixed numpy seed would not reproduce the draws", "%s:%d" % (mod.relpath, line))
-                if not bad:
-                    chk.hold(rule, "iteration-order:%s.%s" % (c.name, nm), "no loop over a set expression", nontrivial=False)
+                for line, src in hist:
+                    chk.violation(rule, q, "%s:cache-iteration:%s" % (nm, src[:40]), "iterates over the lazily filled per-object cache `%s` on a sampling path" % src,
+                                  "a deterministic order given the object's CONTENT (self.groups): the order of a lazily filled dict is the order in which its entries were first requested, "
+                                  "so two equal objects with different query histories hand the random stream to the groups in different orders", "%s:%d" % (mod.relpath, line))
+                if not bad and not hist:
+                    chk.hold(rule, "iteration-order:%s.%s" % (c.name, nm), "no loop over a set expression or a lazily filled cache", nontrivial=False)
     if n_fn < 2:
         chk.unknown(rule, "only %d drawing methods found in scores / group_scores" % n_fn)
